@@ -94,7 +94,8 @@ LeafPool == <<
   Leaf("Arg", <<13>>, <<6>>, "f", 0, {}),                                 \* 54 length-6 argument
   Leaf("Const", <<1, 1, 2, 1, -1, 1, 0, 1, 3, 1, 1, 1>>, <<2, 3>>, "f", 0, {}),  \* 55 [[1, 2, -1], [0, 3, 1]] (two coefficient rows)
   Leaf("Const", <<1, 1>>, <<>>, "i", 2, {}),                              \* 56 1 (int)
-  Leaf("Const", <<1, 2, 2, 1>>, <<2>>, "f", 0, {})                        \* 57 [.5, 2.]
+  Leaf("Const", <<1, 2, 2, 1>>, <<2>>, "f", 0, {}),                       \* 57 [.5, 2.]
+  Leaf("Arg", <<14>>, <<>>, "i", 0, {})                                   \* 58 scalar integer argument (loop length via InRange)
 >>
 
 \* fixed environment for the model-internal sanity invariants (and for evaluating loop dependent lengths, which do
@@ -104,7 +105,7 @@ TestEnv == << ArgArr(<<2>>, <<1, 2>>, 0), ArgArr(<<2, 2>>, <<1, 2, 3, 5>>, 0), A
               ArgArr(<<2, 2, 2>>, <<1, 2, 3, 4, 5, 6, 7, 9>>, 0), ArgArr(<<3, 3>>, <<2, 1, 0, 1, 3, 1, 0, 1, 2>>, 0),
               ArgArr(<<4>>, <<1, 2, 3, 4>>, 0),
               ArgArr(<<2>>, <<1, 2, 2, -1>>, 0), ArgArr(<<>>, <<2, 1>>, 0), ArgArr(<<2, 2>>, <<1, 2, 0, 1, 1, 0, -1, 2>>, 0),
-              ArgArr(<<6>>, <<1, 2, -1, 3, 0, 2>>, 0) >>
+              ArgArr(<<6>>, <<1, 2, -1, 3, 0, 2>>, 0), ArgArr(<<>>, <<2>>, 0) >>
 
 IsLeaf(n) == Len(n.d) = 0
 NOps == Cardinality({k \in 1..Len(nodes) : ~IsLeaf(nodes[k])})
@@ -128,7 +129,9 @@ Pairs == {<<i, j>> \in (1..L) \X (1..L) : i = L \/ j = L}
 Same(i, j) == Nd(i).sh = Nd(j).sh /\ Nd(i).dt = Nd(j).dt
 Lp2(i, j) == Nd(i).lp \cup Nd(j).lp
 
-AddLeaf == /\ NLeaves < MaxLeaves /\ Cardinality(Unused) <= 1
+\* a vocabulary with a macro step is a directed family: its programs begin with a macro chain
+MacroFamily == "MacroArgLoop" \in Ops \/ "MacroLenTab" \in Ops
+AddLeaf == /\ NLeaves < MaxLeaves /\ Cardinality(Unused) <= 1 /\ (MacroFamily => L > 0)
            /\ \E l \in LeafSet : Push(LeafPool[l])
 
 Unary(op, dts, keepix) ==
@@ -311,25 +314,61 @@ AEinsumOp == /\ "Einsum" \in Ops /\ L >= 1
                                     UNION {Nd(ds[i]).lp : i \in 1..Len(ds)}))
 
 LoopLen(l) == IF l = 1 THEN 2 ELSE 3
+\* loops 1 and 2 have static lengths; loop 3 runs over the value of a closed scalar integer node (e.g. InRange of an
+\* integer argument): LoopIndexN introduces its index, LoopSumN sums over it (a LoopConcat over it would have an
+\* argument dependent shape and is not built)
+ArgLoop == 3
+ArgLoopLen == {Nd(m).d[1] : m \in {m \in 1..L : Nd(m).op = "LoopIndexN"}}      \* the length node, once the index exists
+ALoopNOp == \/ /\ "LoopIndexN" \in Ops /\ L >= 1 /\ Nd(L).dt = "i" /\ Rank(L) = 0 /\ Nd(L).ix > 0 /\ Nd(L).ix <= 4 /\ Nd(L).lp = {}
+               /\ ArgLoopLen \subseteq {L}
+               /\ Push(Node("LoopIndexN", <<L>>, <<ArgLoop>>, <<>>, "i", IF Nd(L).ix > 1 THEN Nd(L).ix - 1 ELSE 1, {ArgLoop}))
+            \/ /\ "LoopSumN" \in Ops /\ L >= 1 /\ Nd(L).dt \in {"i", "f", "c"} /\ Static(L) /\ ArgLoop \in Nd(L).lp
+               /\ \E k \in ArgLoopLen : Push(Node("LoopSumN", <<L, k>>, <<ArgLoop>>, Nd(L).sh, Nd(L).dt, 0, Nd(L).lp \ {ArgLoop}))
+\* Monomial(values, args, indices, powers): values rank 1; one factor x[i] (x rank 1, i an index vector of the length of
+\* values), the same factor twice (powers <<2, 1>>: x[i]^2), or a scalar factor (no indices)
+AMonomialOp == /\ "Monomial" \in Ops /\ L >= 1
+               /\ \E v \in 1..L, x \in 1..L :
+                     /\ Nd(v).dt = "f" /\ Rank(v) = 1 /\ Static(v) /\ LastLen(v) >= 1 /\ Nd(x).dt = "f" /\ Static(x)
+                     /\ \/ /\ Rank(x) = 0 /\ (v = L \/ x = L)
+                           /\ Push(Node("Monomial", <<v, x>>, <<1>>, Nd(v).sh, "f", 0, Lp2(v, x)))
+                        \/ /\ Rank(x) = 1
+                           /\ \E i \in 1..L : /\ (v = L \/ x = L \/ i = L)
+                                               /\ Nd(i).dt = "i" /\ Nd(i).sh = Nd(v).sh /\ Nd(i).ix > 0 /\ Nd(i).ix <= LastLen(x)
+                                               /\ \/ Push(Node("Monomial", <<v, x, i>>, <<1>>, Nd(v).sh, "f", 0, Lp2(v, x) \cup Nd(i).lp))
+                                                  \/ Push(Node("Monomial", <<v, x, i, x, i>>, <<2, 1>>, Nd(v).sh, "f", 0, Lp2(v, x) \cup Nd(i).lp))
+
+\* Macro steps push a short chain of nodes at once, so that the structures below are reachable at small depth (the chain
+\* could also be built node by node from the general actions):
+\*   MacroArgLoop: Argument a14 (int scalar), InRange(a14, 3), loop index of loop 3 whose length is that node
+\*   MacroLenTab : Constant size table, loop index l, Take(table, index): a loop dependent axis length (sizes 1,0 / 2,0,1)
+AMacro == \/ /\ "MacroArgLoop" \in Ops /\ ArgLoopLen = {} /\ NLeaves < MaxLeaves /\ NOps + 2 <= MaxOps /\ L + 3 <= MaxNodes /\ Cardinality(Unused) <= 1
+             /\ nodes' = nodes \o << LeafPool[58], Node("InRange", <<L + 1>>, <<3>>, <<>>, "i", 3, {}),
+                                    Node("LoopIndexN", <<L + 2>>, <<ArgLoop>>, <<>>, "i", 2, {ArgLoop}) >>
+             /\ UNCHANGED fam
+          \/ /\ "MacroLenTab" \in Ops /\ NLeaves + 2 <= MaxLeaves /\ NOps + 1 <= MaxOps /\ L + 3 <= MaxNodes /\ Cardinality(Unused) <= 1
+             /\ \E l \in {1, 2} :
+                   nodes' = nodes \o << LeafPool[IF l = 1 THEN 13 ELSE 39], LeafPool[IF l = 1 THEN 22 ELSE 23],
+                                       Node("Take", <<L + 1, L + 2>>, <<>>, <<>>, "i", IF l = 1 THEN 2 ELSE 3, {l}) >>
+             /\ UNCHANGED fam
 ALoopSumOp == /\ "LoopSum" \in Ops /\ L >= 1 /\ Nd(L).dt \in {"i", "f", "c"} /\ Static(L)
-              /\ \E l \in Nd(L).lp : Push(Node("LoopSum", <<L>>, <<l, LoopLen(l)>>, Nd(L).sh, Nd(L).dt, 0, Nd(L).lp \ {l}))
+              /\ \E l \in Nd(L).lp \cap {1, 2} : Push(Node("LoopSum", <<L>>, <<l, LoopLen(l)>>, Nd(L).sh, Nd(L).dt, 0, Nd(L).lp \ {l}))
 \* value of the length node k at iteration i of loop l (length nodes do not depend on arguments)
-LenAt(k, l, i) == LenVal(Ev(nodes, k, TestEnv, [<<0, 0>> EXCEPT ![l] = i]))
+LenAt(k, l, i) == LenVal(Ev(nodes, k, TestEnv, [<<0, 0, 0>> EXCEPT ![l] = i]))
 RECURSIVE LenTotal(_, _, _)
 LenTotal(k, l, i) == IF i < 0 THEN 0 ELSE LenAt(k, l, i) + LenTotal(k, l, i - 1)
 ALoopConcatOp == \/ /\ "LoopConcat" \in Ops /\ L >= 1 /\ Rank(L) >= 1 /\ Static(L) /\ LastLen(L) * 3 <= 9
-                    /\ \E l \in Nd(L).lp : Push(Node("LoopConcat", <<L>>, <<l, LoopLen(l), LastLen(L)>>,
+                    /\ \E l \in Nd(L).lp \cap {1, 2} : Push(Node("LoopConcat", <<L>>, <<l, LoopLen(l), LastLen(L)>>,
                                                      Append(SFront(Nd(L).sh), LastLen(L) * LoopLen(l)), Nd(L).dt, 0, Nd(L).lp \ {l}))
                  \* element dependent chunk sizes: the last axis has the loop dependent length of node k = -LastLen(L); the
                  \* concatenated length is the sum of that node's values over the loop (chunk size parameter 0)
                  \/ /\ "LoopConcat" \in Ops /\ L >= 1 /\ DynLast(L)
-                    /\ \E l \in Nd(L).lp : /\ Nd(-LastLen(L)).lp = {l}
+                    /\ \E l \in Nd(L).lp \cap {1, 2} : /\ Nd(-LastLen(L)).lp = {l}
                                            /\ Push(Node("LoopConcat", <<L>>, <<l, LoopLen(l), 0>>,
                                                         Append(SFront(Nd(L).sh), LenTotal(-LastLen(L), l, LoopLen(l) - 1)), Nd(L).dt, 0, Nd(L).lp \ {l}))
 
 \* nodes usable as a loop dependent axis length: scalar integer, values certainly in 0..3, independent of arguments,
 \* dependent on exactly one loop
-LenNode(k) == Nd(k).dt = "i" /\ Rank(k) = 0 /\ Nd(k).ix > 0 /\ Nd(k).ix <= 4 /\ Cardinality(Nd(k).lp) = 1 /\ ~DepArg(nodes, k)
+LenNode(k) == Nd(k).dt = "i" /\ Rank(k) = 0 /\ Nd(k).ix > 0 /\ Nd(k).ix <= 4 /\ Cardinality(Nd(k).lp) = 1 /\ Nd(k).lp \subseteq {1, 2} /\ ~DepArg(nodes, k)
 \* Range(length node), InsertAxis(func, length node)
 ADynOp == \/ /\ "RangeN" \in Ops /\ L >= 1 /\ LenNode(L)
              /\ Push(Node("RangeN", <<L>>, <<>>, <<-L>>, "i", IF Nd(L).ix > 1 THEN Nd(L).ix - 1 ELSE 1, Nd(L).lp))
@@ -345,7 +384,7 @@ ASearchOp ==
        /\ Cardinality(Nd(L).lp) <= 1
        /\ LET w == Nd(Nd(L).d[1]).d[1] IN
              /\ Static(w) /\ LastLen(w) <= 3
-             /\ Push(Node("Find", <<w, L>>, <<>>, IF Nd(L).lp = {} THEN <<LenVal(Ev(nodes, L, TestEnv, <<0, 0>>))>> ELSE <<-L>>, "i",
+             /\ Push(Node("Find", <<w, L>>, <<>>, IF Nd(L).lp = {} THEN <<LenVal(Ev(nodes, L, TestEnv, <<0, 0, 0>>))>> ELSE <<-L>>, "i",
                           IF LastLen(w) > 0 THEN LastLen(w) ELSE 1, Nd(L).lp))
     \* SearchSorted(arg, array[, sorter = ArgSort(array)], side)
     \/ /\ "SearchSorted" \in Ops
@@ -383,21 +422,21 @@ AddOp == /\ NOps < MaxOps
             \/ APower \/ ACast \/ AComplex \/ AInsert \/ ATransp \/ AReduce \/ ATakeOp \/ ATakeDiagOp \/ ADiagOp \/ AInflateOp
             \/ ARavelOp \/ AUnravelOp \/ ARavelIndexOp \/ AChooseOp \/ AInRangeOp \/ ALinalg \/ APolyvalOp
             \/ ALoopSumOp \/ ALoopConcatOp \/ AEinsumOp \/ APolyMulOp \/ APolyGradOp \/ APolyCountOp \/ ALegendreOp
-            \/ ADynOp \/ ASearchOp
+            \/ ADynOp \/ ASearchOp \/ ALoopNOp \/ AMonomialOp
 
 Init == nodes = <<>> /\ fam \in 1..Len(Families)
 Next == /\ L < MaxNodes
-        /\ (AddLeaf \/ AddOp)
+        /\ (AddLeaf \/ AddOp \/ AMacro)
 Spec == Init /\ [][Next]_<<nodes, fam>>
 
 \* ------------------------------------------------------------------ well-formedness of what is built
 Complete == L >= 1 /\ Nd(L).lp = {} /\ Unused = {L} /\ NOps >= EmitMin
 \* the typing attributes are consistent with ArraySem: checked on every complete
 \* program at one fixed environment (model-internal sanity of the builder)
-ShapeSound == Complete => Ev(nodes, L, TestEnv, <<0, 0>>).sh = Nd(L).sh
+ShapeSound == Complete => Ev(nodes, L, TestEnv, <<0, 0, 0>>).sh = Nd(L).sh
 IxSound == (Complete /\ Nd(L).ix > 0) =>
               \A e \in 1..Prod(Nd(L).sh) :
-                  LET x == Ev(nodes, L, TestEnv, <<0, 0>>).v[e] IN
+                  LET x == Ev(nodes, L, TestEnv, <<0, 0, 0>>).v[e] IN
                   IF Nd(L).dt = "c" THEN ZIsBad(x) \/ (x[2][1] = RZero /\ RIsInt(x[1][1]))
                   ELSE DIsBad(x) \/ (IdxVal(x) >= 0 /\ IdxVal(x) < Nd(L).ix)
 
